@@ -698,6 +698,17 @@ pub fn gen_c03_net(rng: &mut Rng, tier: Tier) -> NetProgram {
         }
         prog.modules[i].chained = rng.chance(1, 2);
     }
+    // a handler may shut its module down (for good) in the middle of its emissions
+    if rng.chance(1, 6) {
+        let v = rng.usize(nmod);
+        let nb = prog.modules[v].beats.len();
+        if nb > 0 {
+            let bi = rng.usize(nb);
+            let na = prog.modules[v].beats[bi].acts.len();
+            let pos = rng.usize(na + 1);
+            prog.modules[v].beats[bi].acts.insert(pos, Act::Shutdown { restart: -1, at: false });
+        }
+    }
     // a handler may panic after it emitted (caught by the module's stereotype): what it emitted keeps its place in the
     // scheduling order
     if rng.chance(1, 6) {
